@@ -110,7 +110,14 @@ def check(case):
     ref = LazyRef()
     mode = case['mode']
     try:
-        if mode == 'prefix':
+        if mode == 'cycle':
+            k = case['arg']
+            cyc = ds.cycle()
+            if env.log:
+                raise Violation('cycle-construction-evaluates', f'{desc}\nds.cycle() alone evaluated {env.log[:6]}')
+            list(itertools.islice(cyc, k))
+            list(itertools.islice(ref.iter(node), k))
+        elif mode == 'prefix':
             k = case['arg']
             it = iter(ds)
             got = []
@@ -134,7 +141,7 @@ def check(case):
     except Exception as e:
         raise RuntimeError(f'harness: {desc}: {type(e).__name__}: {e}')
     try:
-        compare(node, list(env.log), ref.log, mode)
+        compare(node, list(env.log), ref.log, 'prefix' if mode == 'cycle' else mode)
     except Violation as v:
         raise Violation(v.sig, f'{desc}\n{v.detail}')
 
@@ -161,8 +168,12 @@ def st_case(draw):
         modes.append('index')
     if m.cap_str == 'req' and m.keys and not m.taint:
         modes.append('key')
+    if m.n >= 1 and not m.has_raise:
+        modes.append('cycle')
     mode = draw(st.sampled_from(modes))
-    if mode == 'prefix':
+    if mode == 'cycle':
+        arg = draw(st.integers(0, m.n))  # within the first pass: same demand as a plain prefix
+    elif mode == 'prefix':
         arg = draw(st.integers(0, m.n + 1))
     elif mode == 'index':
         arg = draw(st.integers(-m.n, m.n - 1))
@@ -180,7 +191,7 @@ def run_shard(tier, idx, nshards, rec, known):
         m = ev(node)
         instrumented = sum(1 for n in progs.walk(node) if n['op'] in ('map', 'filter', 'frag', 'batch_map', 'parmap',
                                                                         'nonemap'))
-        if case['mode'] == 'prefix':
+        if case['mode'] in ('prefix', 'cycle'):
             nt = 0 < case['arg'] < m.n and progs.depth(node) >= 2 and instrumented >= 2
         else:
             nt = progs.depth(node) >= 3
